@@ -87,6 +87,16 @@ def VC.insert (v : VC) (now amt : Nat) : Option (VC × Bool) :=
 
 def VC.clear (v : VC) : VC := { v with buckets := v.buckets.map (fun _ => 0) }
 
+/-- `VelocityApprover::approve_invoice` / `approve_keysend` (vls-protocol-signer/src/approver.rs; form checked
+    against the source by `translate/x_approver.py`): the request is approved automatically while the approver's own
+    control accepts it; otherwise the delegate decides (`delegate` = what it would answer), and a manual approval
+    clears the control.  Result: (control, approved, automatically). -/
+def VC.approve (v : VC) (now amt : Nat) (delegate : Bool) : Option (VC × Bool × Bool) :=
+  match v.insert now amt with
+  | none => none
+  | some (v', true) => some (v', true, true)
+  | some (v', false) => if delegate then some (v'.clear, true, false) else some (v', false, false)
+
 /-- What a restart does to a control (after the fix in `Node::new_full`): the persisted
     `NodeStateEntry` stores all four fields (`vls-persist/src/model.rs`), the restored control is
     that struct, and `new_full` applies `update_spec(policy spec)`. -/
